@@ -117,9 +117,6 @@ pub fn search(seed: u64, n: u64) {
                 let overlap = o.flat.iter().enumerate().any(|(i, q)| q.iter().any(|p| o.flat.iter().enumerate().any(|(j, r)| i != j && winding(*p, r) != 0)));
                 if overlap { stats.count("input.shapes_overlap"); }
                 stats.case(&format!("{} {:?}", class, set), overlap);
-                // sets in general position (no contact class): the failing key also names the input itself, so that a recorded
-                // failure is one specific input and any other input still alarms
-                let class = if k >= 2 && contact.is_empty() { format!("{}.input_{:016x}", class, fnv(&format!("{:?}", set))) } else { class };
                 check_set(&mut stats, &mut rng, &set, &class, 150, 150);
             }
         }
